@@ -29,7 +29,8 @@ type Case struct {
 	Kinds     []int `json:"kinds"`     // per producer: 0 counter 1 gauge 2 timer 3 histogram bucket
 	Flushers  int   `json:"flushers"`
 	Closers   int   `json:"closers"`
-	After     bool  `json:"after"` // calls after Close returned
+	After     bool  `json:"after"`          // calls after Close returned
+	Dead      bool  `json:"dead,omitempty"` // nobody listens at the destination: every send fails
 	Sched     []int `json:"sched"`
 }
 
@@ -43,19 +44,39 @@ func gen(t *rapid.T) Case {
 	c.Flushers = rapid.IntRange(0, 1).Draw(t, "flushers")
 	c.Closers = rapid.IntRange(1, 2).Draw(t, "closers")
 	c.After = rapid.Bool().Draw(t, "after")
+	c.Dead = rapid.IntRange(0, 3).Draw(t, "dead") == 0
 	c.Sched = sgen.Choices(t, 150, np+c.Flushers+c.Closers+1)
 	return c
 }
 
 const afterBase = 7000000
 
+// leaked reports reporter goroutines that are still there 50 ms after the call (a goroutine that is
+// executing the last instructions of its exit path - the tail of WaitGroup.Done, say - when Close
+// returns is not left running).
 func leaked() string {
+	var l string
+	for i := 0; i < 50; i++ {
+		if l = leakedNow(); l == "" {
+			return ""
+		}
+		time.Sleep(time.Millisecond)
+	}
+	return l
+}
+
+func leakedNow() string {
 	buf := make([]byte, 1<<20)
 	n := runtime.Stack(buf, true)
 	var bad []string
 	for _, g := range strings.Split(string(buf[:n]), "\n\n") {
-		if strings.Contains(g, "m3.(*reporter).process") || strings.Contains(g, "m3.(*reporter).timeLoop") {
-			bad = append(bad, strings.SplitN(g, "\n", 2)[0])
+		// any goroutine that is inside, or was started by, the m3 packages - except the harness's own
+		// threads, which may be parked at a hook inside a reporter call
+		if strings.Contains(g, "github.com/uber-go/tally/v4/m3") && !strings.Contains(g, "verifharness/") {
+			if len(g) > 900 {
+				g = g[:900]
+			}
+			bad = append(bad, strings.ReplaceAll(g, "\n", " | "))
 		}
 	}
 	return strings.Join(bad, "; ")
@@ -76,6 +97,10 @@ func run(c Case) (pbt.Outcome, error) {
 	r, err := m3.NewReporter(m3.Options{HostPorts: []string{sink.Addr}, Service: "svc", Env: "test", Protocol: proto, MaxQueueSize: c.Queue})
 	if err != nil {
 		return out, fmt.Errorf("NewReporter: %v", err)
+	}
+	if c.Dead {
+		_ = sink.Conn.Close()
+		out.Classes = append(out.Classes, "destination-unreachable")
 	}
 	cnt := r.AllocateCounter("c", map[string]string{"a": "b"})
 	gau := r.AllocateGauge("g", nil)
@@ -239,7 +264,7 @@ func run(c Case) (pbt.Outcome, error) {
 func TestSched(t *testing.T) {
 	pbt.Main(t, pbt.Prop[Case]{
 		ID: "C14", Name: "sched",
-		Rule: "cooperative-scheduler mode: 1..3 producer threads (1..4 reports each through a counter, gauge, timer or histogram-bucket handle), 0..1 Flush caller, 1..2 Close callers and optional post-Close activity (reports, Flush, Allocate, Close again) on a reporter with queue size 1..4 and a real loopback sink, both protocols; the schedule (<=150 choices) interleaves them at the verif yield points between 'pending++', 'check done' and 'send' of every report/flush and between the steps of Close (CAS, busy-wait for pending to drain, close the two channels, wait for the workers); the batching goroutine runs free. Oracle: no panic (e.g. send on closed channel), every call returns (deadlock decided by the scheduler, hang rule otherwise), exactly one Close returns nil and every other returns an error, no reporter goroutine is alive when the winner returns (goroutine dump), nothing reported after Close returned reaches the sink, every datagram decodes. Non-trivial: some report/flush was preempted inside its enter protocol. Distinct: FNV-64 of program+schedule JSON.",
+		Rule: "cooperative-scheduler mode: 1..3 producer threads (1..4 reports each through a counter, gauge, timer or histogram-bucket handle), 0..1 Flush caller, 1..2 Close callers and optional post-Close activity (reports, Flush, Allocate, Close again) on a reporter with queue size 1..4 and a real (in a quarter of the cases: unreachable) loopback sink, both protocols; the schedule (<=150 choices) interleaves them at the verif yield points between 'pending++', 'check done' and 'send' of every report/flush and between the steps of Close (CAS, busy-wait for pending to drain, close the two channels, wait for the workers); the batching goroutine runs free. Oracle: no panic (e.g. send on closed channel), every call returns (deadlock decided by the scheduler, hang rule otherwise), exactly one Close returns nil and every other returns an error, no reporter goroutine is alive when the winner returns (goroutine dump), nothing reported after Close returned reaches the sink, every datagram decodes. Non-trivial: some report/flush was preempted inside its enter protocol. Distinct: FNV-64 of program+schedule JSON.",
 		Gen:  gen, Run: run, Retries: 10,
 	})
 }
